@@ -184,7 +184,7 @@ impl SubCheck for Sub {
     }
 }
 
-fn case() -> BoxedStrategy<Case> {
+pub fn case() -> BoxedStrategy<Case> {
     let zero = Dur::zero();
     let time_add = (gen::ns_of_day(), gen::valid_time_dur(), prop::bool::ANY).prop_map(move |(a, dur, sub)| Case { op: if sub { Op::TimeSubtract } else { Op::TimeAdd }, a, b: 0, dur, largest: None });
     // instants: result near the limits on purpose
